@@ -115,6 +115,7 @@ type Sched struct {
 	allowBlockedDaemons bool
 	trace               []string
 	traceOn             bool
+	noUnlockPoints      bool
 	User                any
 }
 
@@ -390,6 +391,33 @@ func (s *Sched) Join(hs ...*Handle) {
 	}
 }
 
+// IsAbort reports whether a recovered panic value is the runtime's own unwinding sentinel
+// (harness-side recover wrappers must re-panic it).
+func IsAbort(p any) bool { _, ok := p.(abortT); return ok }
+
+// UnlockPoint is the scheduling point before a lock release; it can be switched off per run
+// (RunOpts.NoUnlockPoints) because happens-before race detection does not depend on it.
+func (s *Sched) UnlockPoint(kind string) {
+	if s.noUnlockPoints {
+		if s.aborting {
+			panic(abortT{})
+		}
+		return
+	}
+	s.Point(kind)
+}
+
+// DaemonCount returns the number of threads started by code under test (vrt.Go).
+func (s *Sched) DaemonCount() int {
+	n := 0
+	for _, t := range s.threads {
+		if t.daemon {
+			n++
+		}
+	}
+	return n
+}
+
 // Quiesce blocks until no other thread can make progress (and no timer is pending).
 func (s *Sched) Quiesce() {
 	s.Yield(&Op{Kind: "quiesce", Low: true})
@@ -517,6 +545,7 @@ type RunOpts struct {
 	Trace               bool
 	StartNS             int64
 	WatchdogS           int
+	NoUnlockPoints      bool
 	LoopHorizon         int // max `for` iterations between two visible operations (0 = 5e6)
 }
 
@@ -524,7 +553,7 @@ type RunOpts struct {
 // 0 afterwards.
 func Run(prefix []int, o RunOpts, body func(s *Sched)) *Result {
 	s := &Sched{prefix: prefix, endCh: make(chan struct{}), horizon: o.Horizon, raceOn: o.Race,
-		allowBlockedDaemons: o.AllowBlockedDaemons, traceOn: o.Trace, now: o.StartNS,
+		allowBlockedDaemons: o.AllowBlockedDaemons, traceOn: o.Trace, now: o.StartNS, noUnlockPoints: o.NoUnlockPoints,
 		chans: map[uintptr]*chanModel{}, shadow: map[accKey]*shadowCell{}}
 	if s.horizon == 0 {
 		s.horizon = 200000
@@ -573,11 +602,12 @@ func Run(prefix []int, o RunOpts, body func(s *Sched)) *Result {
 
 type ExploreOpts struct {
 	RunOpts
-	Bound     int // max deviations (preemptions + non-default environment answers)
-	MaxExec   int // cap on executions (0 = none); hitting it is reported, not hidden
-	Shard     int
-	NShards   int
-	FirstOnly bool // stop at the first failure of each signature (always true in effect)
+	Bound        int // max deviations (preemptions + non-default environment answers)
+	MaxExec      int // cap on executions (0 = none); hitting it is reported, not hidden
+	Shard        int
+	NShards      int
+	FirstOnly    bool  // stop at the first failure of each signature (always true in effect)
+	DeadlineUnix int64 // wall-clock second after which the search stops and reports a cap (0 = none)
 }
 
 type Stats struct {
@@ -596,13 +626,14 @@ type Stats struct {
 }
 
 type Explorer struct {
-	o       ExploreOpts
-	body    func(s *Sched)
-	st      *Stats
-	seen    map[string]bool
-	capped  bool
-	stop    bool
-	subtree int
+	timeCapped bool
+	o          ExploreOpts
+	body       func(s *Sched)
+	st         *Stats
+	seen       map[string]bool
+	capped     bool
+	stop       bool
+	subtree    int
 }
 
 // Explore runs the deviation-bounded DFS.
@@ -620,6 +651,13 @@ func Explore(o ExploreOpts, body func(s *Sched)) *Stats {
 
 func (e *Explorer) explore(prefix []int, depth int) {
 	if e.stop {
+		return
+	}
+	if e.o.DeadlineUnix > 0 && time.Now().Unix() > e.o.DeadlineUnix {
+		if !e.capped || !e.timeCapped {
+			e.capped, e.timeCapped = true, true
+			e.st.CapsHit = append(e.st.CapsHit, "time_budget")
+		}
 		return
 	}
 	if e.o.MaxExec > 0 && e.st.Executions >= e.o.MaxExec {
